@@ -137,6 +137,18 @@ def g(F, X):
             v = ("filter" not in cond) and ("ITS_Stave" in cond) and ("CheckCommands::All" in cond) and (cond.count("&&") == 0) and (cond.count("||") == 0) \
                 and bool(re.match(r"\s*global_config\s*\.\s*check\s*\(\s*\)\s*\.\s*is_some_and", cond))
     F.add("dispatch_key_from_check_target_only", "bool", v, True, "validator_dispatcher.rs new: dispatch_by is FeeId iff check() is All with target ITS_Stave, nothing else in the condition")
+    # 9b. exactly one consumer of the reader's data channel: the analysis thread is started iff a check or a view is requested, the
+    #     writer iff neither is (and a filter + an output are given) -- two consumers on one channel would split the batches (seed C08-H)
+    body = X.fn_body(lib, "process")
+    v = None
+    if body:
+        b = re.sub(r"\s+", " ", body)
+        a = re.search(r"let analysis_handle = if (.*?) \{", b)
+        w = re.search(r"\( ?None, None, true, output_mode ?\) if output_mode != DataOutputMode::None => Some\( ?write::lib::spawn_writer", b)
+        v = bool(a and a.group(1).strip() == "config.check().is_some() || config.view().is_some()" and w
+                 and b.count("spawn_writer") == 1 and b.count("spawn_analysis") == 1)
+    F.add("proto_single_data_consumer", "bool", v, True,
+          "fastpasta lib.rs process: analysis thread iff check or view; writer iff (None, None, filter, output); one call site each")
     F.add("proto_vcap_min", "N", X.const_in(vd, "INITIAL_CHAN_CAP"), 128, "validator_dispatcher.rs init_validator: INITIAL_CHAN_CAP (capacities only grow from it)")
 
     # 10. loops that end only when their channel is disconnected; the controller gives up its own sender first
